@@ -97,6 +97,66 @@ impl Instant {
     }
 }
 
+impl Instant {
+    pub fn saturating_duration_since(&self, earlier: Instant) -> Duration {
+        self.duration_since(earlier)
+    }
+
+    pub fn checked_duration_since(&self, earlier: Instant) -> Option<Duration> {
+        self.0.checked_sub(earlier.0).map(Duration::from_nanos)
+    }
+
+    pub fn checked_add(&self, duration: Duration) -> Option<Instant> {
+        u64::try_from(duration.as_nanos())
+            .ok()
+            .and_then(|d| self.0.checked_add(d))
+            .map(Instant)
+    }
+
+    pub fn checked_sub(&self, duration: Duration) -> Option<Instant> {
+        u64::try_from(duration.as_nanos())
+            .ok()
+            .and_then(|d| self.0.checked_sub(d))
+            .map(Instant)
+    }
+}
+
+impl std::ops::Add<Duration> for Instant {
+    type Output = Instant;
+
+    fn add(self, rhs: Duration) -> Instant {
+        self.checked_add(rhs).expect("overflow when adding duration to instant")
+    }
+}
+
+impl std::ops::AddAssign<Duration> for Instant {
+    fn add_assign(&mut self, rhs: Duration) {
+        *self = *self + rhs;
+    }
+}
+
+impl std::ops::Sub<Duration> for Instant {
+    type Output = Instant;
+
+    fn sub(self, rhs: Duration) -> Instant {
+        self.checked_sub(rhs).expect("overflow when subtracting duration from instant")
+    }
+}
+
+impl std::ops::SubAssign<Duration> for Instant {
+    fn sub_assign(&mut self, rhs: Duration) {
+        *self = *self - rhs;
+    }
+}
+
+impl std::ops::Sub<Instant> for Instant {
+    type Output = Duration;
+
+    fn sub(self, rhs: Instant) -> Duration {
+        self.duration_since(rhs)
+    }
+}
+
 // === Wall clock ===
 
 #[derive(Clone, Copy, PartialEq, Eq, PartialOrd, Ord, Hash, Debug)]
@@ -119,6 +179,14 @@ impl SystemTime {
             .ok_or(SystemTimeError)
     }
 }
+
+impl SystemTime {
+    pub fn elapsed(&self) -> Result<Duration, SystemTimeError> {
+        SystemTime::now().duration_since(*self)
+    }
+}
+
+pub const UNIX_EPOCH: SystemTime = SystemTime::UNIX_EPOCH;
 
 // === UDP ===
 
